@@ -8,6 +8,8 @@ Driver for the C17 correspondence.  One request per line:
   `enc b0|b1|i<int>|s<str>|o`              → the number `filter_to_static_assertion_value` prints, or `err:value`
   `tog <c|cpp> <0|1> <set₁> <set₂>`        support header from set₁, type header from set₂ (flag = serialization
                                            omitted) → `ok` | `diag m:<name>,u:<name>,…` | `err:gen`
+  `tu <c|cpp> <0|1> <set₁> <setA>|<setB>|…` support header from set₁, type headers (in the order their guard blocks
+                                           are reached) from setA, setB, … → per-header answers joined by `|`, or `err:gen`
   `exp <set₁> <set₂>`                      the key-level prediction `expected`, same answer format
   `dom <c|cpp>`                            → the generated table the driver was linked with
 
@@ -79,6 +81,16 @@ def answer (line : String) : String :=
       let name := nameFrom ((a ++ b).map fun (k, n, _) => (k, n))
       match together l (om = "1") name (a.map fun (k, _, v) => (k, v)) (b.map fun (k, _, v) => (k, v)) with
       | some ds => showDiags ds
+      | none => "err:gen"
+    | _, _, _ => "bad-op"
+  | ["tu", l, om, a, hs] =>
+    match parseLang l, parseSet a, (splitOnChar hs '|').mapM parseSet with
+    | some l, some a, some hs =>
+      if om ≠ "0" ∧ om ≠ "1" then "bad-op" else
+      let name := nameFrom ((a ++ hs.flatten).map fun (k, n, _) => (k, n))
+      let strip := fun (o : List (String × String × OptVal)) => o.map fun (k, _, v) => (k, v)
+      match togetherTU l (om = "1") name (strip a) (hs.map strip) with
+      | some dss => "|".intercalate (dss.map showDiags)
       | none => "err:gen"
     | _, _, _ => "bad-op"
   | ["exp", a, b] =>
